@@ -212,6 +212,13 @@ class VTuple(V):
         self.items = list(items)
 
 
+class VPySet(V):
+    """python set with concrete (string) members"""
+
+    def __init__(self, items):
+        self.items = frozenset(items)
+
+
 class VDict(V):
     """python dict with CONCRETE keys (strings or class objects) and symbolic values; mutated in place like the real one"""
 
@@ -688,6 +695,12 @@ class Engine:
         """discharge collected obligations; one query each (see solve.check). `indices`: only these positions."""
         from . import solve
         res = []
+        if indices is None and self.axioms:
+            # axiom canary: the unit's axiom set must not be provably inconsistent (axioms are attached to VCs by cone of influence)
+            r = solve.check([], [], list(self.axioms), z3.BoolVal(False), canary=True)
+            r["id"] = "axioms.CANARY"
+            r["idx"] = -1
+            res.append(r)
         for idx, (name, pc, goal) in enumerate(self.obligations):
             if only and only not in name:
                 continue
@@ -728,10 +741,13 @@ class Engine:
             return self.consts[n.id]
         if n.id in ("True", "False"):
             return VBool(z3.BoolVal(n.id == "True"))
-        if n.id in ("np", "warnings", "integrate"):
+        if n.id in ("np", "warnings", "integrate", "six"):
             return VLib(n.id)
         if n.id == "super":
             return VLib("super")
+        import builtins as _b
+        if isinstance(getattr(_b, n.id, None), type) and issubclass(getattr(_b, n.id), BaseException):
+            return VLib("exc:" + n.id)
         if n.id in ("len", "list", "float", "int", "zip", "enumerate", "range", "abs", "isinstance", "tuple", "max", "min", "dict"):
             return VLib(n.id)
         if n.id in self.repo.classes:
@@ -800,6 +816,10 @@ class Engine:
     def key_of(self, v):
         if isinstance(v, VStr):
             return v.s
+        if isinstance(v, VNum) and z3.is_int_value(z3.simplify(v.e)):
+            return z3.simplify(v.e).as_long()
+        if isinstance(v, VNone):
+            return None
         if isinstance(v, VLib) and v.name.startswith("class:"):
             return v.name
         raise Unsupported("dict key must be concrete: " + type(v).__name__)
@@ -823,8 +843,10 @@ class Engine:
             raise Unsupported("class attribute " + ast.unparse(n))
         if isinstance(base, VDict) and n.attr in ("get", "pop", "setdefault", "keys", "values", "items"):
             return VBound(base, n.attr)
-        if isinstance(base, VStr) and n.attr in ("format", "join"):
+        if isinstance(base, VStr) and n.attr in ("format", "join", "lower", "upper", "strip"):
             return VBound(base, n.attr)
+        if isinstance(base, VNum) and n.attr in ("lower", "upper", "strip"):
+            raise PyRaise("AttributeError")
         if isinstance(base, VExternal):
             return VBound(base, n.attr)
         if isinstance(base, VNode):
@@ -864,6 +886,8 @@ class Engine:
                         return self.ev(stmt.value, st)
             raise Unsupported(f"attribute {base.cls}.{n.attr}")
         if isinstance(base, VOpaque) and isinstance(base.tag, tuple) and base.tag[0] == "map" and n.attr in ("keys", "values", "items", "copy"):
+            return VBound(base, n.attr)
+        if isinstance(base, VPySet) and n.attr in ("issubset", "issuperset", "union", "intersection", "difference"):
             return VBound(base, n.attr)
         if isinstance(base, VTuple) and n.attr in ("index", "append", "copy", "count"):
             return VBound(base, n.attr)
@@ -906,6 +930,8 @@ class Engine:
             return z3.BoolVal(bool(v.s))
         if isinstance(v, VDict):
             return z3.BoolVal(bool(v.d))
+        if isinstance(v, VPySet):
+            return z3.BoolVal(bool(v.items))
         if isinstance(v, VNameMap):
             return v.len > 0
         if isinstance(v, VTuple):
@@ -921,8 +947,26 @@ class Engine:
         raise Unsupported("truth of " + type(v).__name__)
 
     def ev_BoolOp(self, n, st):
-        vs = [self.truth(self.ev(v, st)) for v in n.values]  # NOTE: short-circuit effects ignored (pure operands only)
-        return VBool(z3.And(vs) if isinstance(n.op, ast.And) else z3.Or(vs))
+        """short-circuit evaluation: operands after a decided one are not evaluated; when a later operand contains a call
+        (may raise / have effects) and the earlier ones are symbolic, the path forks on them"""
+        is_and = isinstance(n.op, ast.And)
+        acc = []
+        for idx, v in enumerate(n.values):
+            t = z3.simplify(self.truth(self.ev(v, st)))
+            if (is_and and z3.is_false(t)) or (not is_and and z3.is_true(t)):
+                return VBool(z3.BoolVal(not is_and))
+            if (is_and and z3.is_true(t)) or (not is_and and z3.is_false(t)):
+                continue
+            rest_impure = any(isinstance(x, ast.Call) for w in n.values[idx + 1:] for x in ast.walk(w))
+            if rest_impure:
+                dec = self.decide(st, ("boolop", getattr(self, "_ctx", ()), id(n), idx), t)
+                if dec != is_and:              # and: operand false -> False ; or: operand true -> True
+                    return VBool(z3.BoolVal(not is_and))
+                continue
+            acc.append(t)
+        if not acc:
+            return VBool(z3.BoolVal(is_and))
+        return VBool(z3.And(acc) if is_and else z3.Or(acc))
 
     def num(self, v, st, what=""):
         if isinstance(v, VOptNum):
@@ -946,8 +990,12 @@ class Engine:
     def binop(self, op, a, b, n=None):
         if isinstance(a, VStr) and isinstance(op, (ast.Mod, ast.Add)):
             return VStr("<formatted>")
+        if isinstance(op, ast.Mod) and getattr(self, "mod_model", None) is not None:
+            return self.mod_model(self, a, b)
         if isinstance(op, ast.Add) and isinstance(a, VTuple) and isinstance(b, VTuple):
             return VTuple(a.items + b.items)
+        if isinstance(a, VPySet) and isinstance(b, VPySet) and isinstance(op, (ast.Sub, ast.BitOr, ast.BitAnd)):
+            return VPySet(a.items - b.items if isinstance(op, ast.Sub) else a.items | b.items if isinstance(op, ast.BitOr) else a.items & b.items)
         if isinstance(op, ast.Add) and isinstance(a, VTuple) and isinstance(b, VRefSeq) and all(isinstance(x, VRef) for x in a.items):
             items = list(a.items)
             def fn(k_, items=items, b=b):
@@ -990,6 +1038,16 @@ class Engine:
         conj = []
         for op, rn in zip(n.ops, n.comparators):
             right = self.ev(rn, st)
+            if isinstance(op, (ast.In, ast.NotIn)) and isinstance(right, VTuple) and isinstance(left, VBound) and all(isinstance(q_, VBound) for q_ in right.items):
+                c = z3.Or([z3.BoolVal(False)] + [left.recv.e == q_.recv.e for q_ in right.items if q_.name == left.name])
+                conj.append(c if isinstance(op, ast.In) else z3.Not(c))
+                left = right
+                continue
+            if isinstance(op, (ast.In, ast.NotIn)) and isinstance(right, VTuple) and isinstance(left, VStr) and all(isinstance(q_, VStr) for q_ in right.items):
+                c = z3.BoolVal(any(q_.s == left.s for q_ in right.items))
+                conj.append(c if isinstance(op, ast.In) else z3.Not(c))
+                left = right
+                continue
             if isinstance(op, (ast.In, ast.NotIn)) and isinstance(right, VTuple) and isinstance(left, VNum) and all(isinstance(q_, VNum) for q_ in right.items):
                 c = z3.Or([z3.BoolVal(False)] + [num_pair(left, q_)[0] == num_pair(left, q_)[1] for q_ in right.items])
                 conj.append(c if isinstance(op, ast.In) else z3.Not(c))
@@ -1017,6 +1075,8 @@ class Engine:
                         c = left.none
                     elif isinstance(left, VRefSeq):
                         c = left.none
+                    elif isinstance(left, (VNum, VTuple, VSeq, VMat, VBool, VDict)):
+                        c = z3.BoolVal(False)
                     elif isinstance(left, VCallRef):
                         c = left.kind == 0
                     else:
@@ -1085,6 +1145,10 @@ class Engine:
         raise Unsupported("subscript " + ast.unparse(n))
 
     def ev_Call(self, n, st):
+        if isinstance(n.func, ast.Attribute) and n.func.attr == "format" and isinstance(n.func.value, (ast.Constant, ast.JoinedStr)):
+            return VStr("<formatted>")       # message text: arguments are not evaluated (dropped, see DESIGN 2.1)
+        if isinstance(n.func, ast.Name) and n.func.id in ("repr", "str", "type") and n.func.id not in st.locals:
+            return VStr("<text>")
         f = self.ev(n.func, st)
         args = []
         for a in n.args:
@@ -1104,6 +1168,10 @@ class Engine:
                     kw.update(o.d)
                 continue
             kw[k.arg] = self.ev(k.value, st)
+        if isinstance(f, VLib) and f.name.startswith("exc:"):
+            return VOpaque(("exc", f.name[4:]))
+        if isinstance(f, VLib) and f.name == "six.raise_from":
+            raise PyRaise(args[0].tag[1] if isinstance(args[0], VOpaque) and isinstance(args[0].tag, tuple) else "Exception")
         if isinstance(f, VLib) and f.name == "super":
             if args:
                 return VSuper(args[1], args[0].name[6:])
@@ -1133,10 +1201,19 @@ class Engine:
                 st.assume(z3.Implies(m_.has(nm.e), z3.And(0 <= q, q < m_.len, m_.names[q] == nm.e)))
                 return VRef(z3.If(m_.has(nm.e), m_.arr[q], NULL), m_.cls)
             raise Unsupported("dict method " + f.name)
+        if isinstance(f, VBound) and isinstance(f.recv, VStr) and f.name in ("lower", "upper", "strip"):
+            return VStr(getattr(f.recv.s, f.name)())
         if isinstance(f, VBound) and isinstance(f.recv, VStr):
             return VStr("<formatted>")
         if isinstance(f, VBound) and isinstance(f.recv, VOpaque):
             return f.recv          # keys()/values()/copy() of an abstract finite map: same size
+        if isinstance(f, VBound) and isinstance(f.recv, VPySet):
+            o = args[0].items if isinstance(args[0], VPySet) else frozenset(self.key_of(x_) for x_ in args[0].items)
+            if f.name == "issubset":
+                return VBool(z3.BoolVal(f.recv.items <= o))
+            if f.name == "issuperset":
+                return VBool(z3.BoolVal(f.recv.items >= o))
+            return VPySet({"union": f.recv.items | o, "intersection": f.recv.items & o, "difference": f.recv.items - o}[f.name])
         if isinstance(f, VBound) and isinstance(f.recv, VTuple):
             if f.name == "append":
                 f.recv.items.append(args[0])
@@ -1166,6 +1243,8 @@ class Engine:
             dflt = args[1] if len(args) > 1 else VNone()
             if f.name == "get":
                 return f.recv.d.get(k, dflt)
+            if f.name == "setdefault":
+                return f.recv.d.setdefault(k, dflt)
             if f.name == "pop":
                 if k not in f.recv.d and len(args) < 2:
                     raise Unsupported("KeyError path: pop of missing key " + str(k))
@@ -1376,6 +1455,9 @@ class Engine:
                 tgt = n.value.func.value
                 seq = self.ev(tgt, st)
                 v = self.ev(n.value.args[0], st)
+                if isinstance(seq, VTuple):
+                    seq.items.append(v)
+                    return [(st, "next", None)]
                 new = VSeq(z3.Store(materialise(seq.arr), seq.len, v.real()), seq.len + 1)
                 self.store(tgt, new, st)
                 return [(st, "next", None)]
@@ -1409,6 +1491,13 @@ class Engine:
                 raise Unsupported("unpacking " + ast.unparse(t))
             for tt, vv in zip(t.elts, v.items):
                 self.store(tt, vv, st)
+        elif isinstance(t, ast.Attribute) and isinstance(self.ev(t.value, st), VNode):
+            nd_ = self.ev(t.value, st)
+            st.ghost = dict(st.ghost)
+            st.ghost["node_calls"] = st.ghost.get("node_calls", ()) + ((nd_.name, "set:" + t.attr, v),)
+        elif isinstance(t, ast.Attribute) and isinstance(self.ev(t.value, st), VExternal):
+            ex_ = self.ev(t.value, st)
+            ex_.rec["calls"].append(("set:" + t.attr, [v], {}))
         elif isinstance(t, ast.Attribute):
             base = self.ev(t.value, st)
             if self.ftype(base.cls, t.attr) is not None:
